@@ -28,6 +28,7 @@ from hypothesis import strategies as st
 
 from ..engine import Clause, require
 from ..strategies import universes
+from ..common import with_history  # noqa: E402
 
 ASSUMPTIONS = [
     "source and target sets are generated disjoint and non-empty, total size 2..6; repeated "
@@ -63,6 +64,7 @@ def _abstract(case):
     return recs, keys, iso, nodes
 
 
+@with_history
 def _build(case, recs, iso):
     from hypergraphx import DirectedHypergraph
     es = [(tuple(s), tuple(t)) for s, t in recs]
